@@ -245,8 +245,22 @@ def run(ctx):
         tb = os.path.join(wd, "traceBits.ndjson")
         rc_b, out_b = vlib.sh([exe_b, str(seed), "7" if tier == "quick" else "40", tb], env=vlib.SAN_ENV, timeout=300)
         if rc_b == 0:
-            extras.append(extra_conformance(ctx, wd, "IpBitsTrace", "IpBitsTrace.cfg", "OK_EXT", tb,
-                                            "lrtr_ip_addr_get_bits for every (from, n) of sample addresses, is_zero, equal (IpBits.tla)"))
+            # the calls the trie makes - (0, len) and (lvl, 1) - and the helpers' documented contract in general, judged apart
+            t_trie, t_gen = os.path.join(wd, "traceBits_trie.ndjson"), os.path.join(wd, "traceBits_general.ndjson")
+            with open(t_trie, "w") as ft, open(t_gen, "w") as fg:
+                last_trie = True
+                for line in open(tb):
+                    e = json.loads(line)
+                    if e["e"] == "getbits":
+                        last_trie = e["from"] == 0 or e["n"] == 1
+                    elif e["e"] == "equal":
+                        last_trie = True
+                    (ft if last_trie else fg).write(line)
+            extras.append(extra_conformance(ctx, wd, "IpBitsTrace", "IpBitsTrace.cfg", "OK_EXT", t_trie,
+                                            "bit helpers as the trie calls them: lrtr_ip_addr_get_bits(0, len) and (lvl, 1), is_zero, equal (IpBits.tla)"))
+            extras.append(extra_conformance(ctx, wd, "IpBitsTrace", "IpBitsTrace.cfg", "OK_EXT", t_gen,
+                                            "lrtr_ip_addr_get_bits for every other (from, n): documented contract (IpBits.tla); a rejection here is the "
+                                            "observation of DESIGN.md 12.1 (bits lost across a 32-bit boundary when from is not word-aligned), no listed property depends on it"))
         else:
             extras.append({"what": "bit helpers", "accepted": False, "note": "harness exit %d" % rc_b})
     rcode = verdict.finish()
